@@ -12,7 +12,7 @@
 From PM Require Import Model.Prelude Model.Domain Model.CTree Model.CTreeChar Model.DomPGKeys
   Model.DomString Model.DomMatrix Spec.TreeSem
   Proofs.TreeProofs Proofs.TreeDomains Proofs.PowersetProofs Proofs.PGTreeProofs
-  Model.Constraint Model.DomPG Proofs.RunSound Spec.TreeDet Proofs.TreeRootExclusive.
+  Model.Constraint Model.DomPG Proofs.RunSound Spec.TreeDet Proofs.TreeRootExclusive Proofs.PowersetDet Proofs.PGTreeDet.
 
 (** helper constructors *)
 Theorem c10_with_children :
@@ -121,9 +121,10 @@ Proof. exact @sort_head_minimal. Qed.
     constraints, each the first one or mutex with it.  Port graphs (smallest
     constraint IsConnected or HasNodeWeight): no host and no binding that is
     injective on their arguments satisfies two of them — a port carries at most
-    one link.  (For a smallest constraint IsNotEqual the root's children are not
-    exclusive; there the first satisfied child's subtree repeats the others,
-    which is decided by the oracle on concrete hosts only.) *)
+    one link.  For a smallest constraint IsNotEqual (a powerset tree) the root's
+    children are not exclusive; there the subtree of the first satisfied child
+    repeats every later constraint: [c10_with_powerset_det_faithful],
+    [c10_pg_ne_tree_det_faithful] below. *)
 Theorem c10_transitive_mutex_root :
   forall (C : Type) (ceqb : C -> C -> bool) (items : list (C * nat)) is_mutex T first fi rest,
     items = (first, fi) :: rest -> with_transitive_mutex ceqb items is_mutex = Ok T ->
@@ -165,6 +166,28 @@ Theorem c10_pg_mutex_tree_det_faithful :
     det_faithful (pg_vb h m) T cs.
 Proof. exact pg_mutex_tree_det_faithful. Qed.
 
+(** the powerset tree under the deterministic reading: a second invariant of the
+    loop (Proofs/PowersetDet.v: a queue item at the root only counts while no
+    child of the root is satisfied) *)
+Theorem c10_with_powerset_det_faithful :
+  forall (C : Type) (ceqb : C -> C -> bool) (conditioned : C -> list C -> option C) (v : C -> bool)
+         (cs : list (C * nat)) (orig : list C),
+    (forall c i, In (c, i) cs -> nth_error orig i = Some c) ->
+    (forall a b, ceqb a b = true -> v a = v b) ->
+    (forall c sat, In c (map fst cs) -> incl sat (map fst cs) -> (forall s, In s sat -> v s = true) ->
+       match conditioned c sat with None => v c = true | Some c' => v c' = v c end) ->
+    forall fuel T, with_powerset ceqb conditioned fuel cs = Ok T -> det_faithful v T orig.
+Proof. exact @with_powerset_det_faithful. Qed.
+
+(** hence the port-graph tree of a list whose smallest constraint is IsNotEqual:
+    every node assignment, every truth of the opaque predicates *)
+Theorem c10_pg_ne_tree_det_faithful :
+  forall (beta : pgkey -> N) (atomv : pgconstraint -> bool) cs fuel T first fi rest,
+    sort_with_indices pgc_cmp cs = (first, fi) :: rest -> is_ne first = true ->
+    pg_tree fuel cs = Ok T ->
+    det_faithful (pgv beta atomv) T cs.
+Proof. exact pg_ne_tree_det_faithful. Qed.
+
 (** Non-vacuity of the above: two links leaving the same port *)
 Example c10_example_exclusive :
   let r := PathRoot 0 in let x := AlongPath 0 (POut 0) 1 in let y := AlongPath 0 (PIn 0) 1 in
@@ -194,3 +217,5 @@ Print Assumptions c10_transitive_mutex_root.
 Print Assumptions c10_pg_tree_root_exclusive.
 Print Assumptions c10_det_faithful_of_exclusive.
 Print Assumptions c10_pg_mutex_tree_det_faithful.
+Print Assumptions c10_with_powerset_det_faithful.
+Print Assumptions c10_pg_ne_tree_det_faithful.
